@@ -310,6 +310,8 @@ class World:
             dep = self.model_advance(built, sus_cmds, observed=None, dry=True)
             if dep is not None:
                 self.ev("rejected:dependency")
+                if step.get("_split_family"):
+                    self.ev("rejected:dependency:parent-and-child-in-two-containers-of-one-batch:" + step["_split_family"])
                 key = dep
                 if sut.state_of(self.ops[key[0]][key[1]]) in ("running", "completed"):
                     self.problem(("C01",), "dependency-executed",
